@@ -23,6 +23,7 @@ func c02(c *core.Check) {
 	c02Discarded(c)
 	c02LastLine(c)
 	c02Forward(c)
+	c02CellKeys(c)
 }
 
 func isResumeStack(t types.Type) bool {
@@ -553,4 +554,52 @@ func c02Forward(c *core.Check) {
 		r.Anchor("ResumeStack literals in html/layout")
 	}
 	r.OK("html/layout | ResumeStack literals examined", "-", fmt.Sprintf("%d literals", n))
+}
+
+// c02CellKeys: the per-cell resume points of a table row split across pages.
+func c02CellKeys(c *core.Check) {
+	p := c.Prog
+	r := c.Rule("R5", "a split table row resumes each cell where that cell stopped: in tableLayout the resume point of a cell is stored under, and looked up with, the same key — the index of the cell in its row (a column number differs from it after a colspan, and the cells that follow would be taken as finished)", 1)
+	n := 0
+	for _, fn := range p.FuncsOfPkg("html/layout") {
+		root := fn
+		for root.Parent() != nil {
+			root = root.Parent()
+		}
+		if root.Name() != "tableLayout" {
+			continue
+		}
+		var reads []*ssa.Lookup
+		var writes []*ssa.MapUpdate
+		core.Instrs(fn, func(in ssa.Instruction) {
+			switch x := in.(type) {
+			case *ssa.Lookup:
+				if x.CommaOk && isResumeStack(x.X.Type()) {
+					// skipStack[k] where the element type is itself a resume stack: a per-child entry
+					reads = append(reads, x)
+				}
+			case *ssa.MapUpdate:
+				if isResumeStack(x.Map.Type()) {
+					if _, nested := x.Map.(*ssa.Lookup); nested {
+						writes = append(writes, x)
+					}
+				}
+			}
+		})
+		for _, rd := range reads {
+			for _, wr := range writes {
+				// same loop: the innermost loop of both
+				lr, lw := core.InnermostLoop(fn, rd.Block()), core.InnermostLoop(fn, wr.Block())
+				if lr == nil || lw == nil || lr.Header != lw.Header {
+					continue
+				}
+				n++
+				same := rd.Index == wr.Key
+				r.Cond(same, core.FuncName(fn)+" | cell resume key read = key written", p.Pos(rd.Pos()), "both are "+exprName(wr.Key), "the resume point of a cell is stored under "+p.MapKeyExprAt(fn, wr.Pos())+" and looked up with another key: after a colspan the lookup misses and the rest of the cell is never laid out")
+			}
+		}
+	}
+	if n == 0 {
+		r.Anchor("tableLayout: per-cell resume point lookup and update in the loop over a row's cells")
+	}
 }
